@@ -29,6 +29,7 @@ type c16Exec struct {
 	faultOut bool              // the fault concerns the output path: leftover partial output tolerated
 	baseline map[string]string // fault-free output to compare with on exit 0 (nil = only existence)
 	heavy    bool              // may cost seconds and a lot of memory on a defective tree
+	scale    bool              // size-scaled input: its cost legitimately grows with the size (own CPU budget; exceeding it is inconclusive)
 	desc     string
 }
 
@@ -48,6 +49,9 @@ var c16DiagRe = regexp.MustCompile(`(?m)^[^\n]*\S: +\S`)
 func c16Judge(e *c16Exec, o *c16Obs) (class, what string) {
 	if o.wallOut {
 		return "inconclusive", "wall-clock watchdog"
+	}
+	if o.cpuOut && e.scale {
+		return "inconclusive", fmt.Sprintf("size-scaled input exceeded its CPU budget (%d ms used): termination not decided", o.cpuMs)
 	}
 	if o.cpuOut {
 		return "hang", fmt.Sprintf("fc exceeded the CPU budget (%d ms used) - does not terminate", o.cpuMs)
@@ -463,6 +467,99 @@ func c16Workload(env *scratch.Env, tier string, rng *core.Rand) []*c16Exec {
 	return out
 }
 
+// ---- size-scaled inputs -----------------------------------------------------------
+//
+// One construct repeated or nested n times. fc is a recursive-descent, recursive-everything
+// compiler: these inputs are the ones that can exhaust the goroutine stack or the memory (the
+// "never dies of a Go runtime fatal error" clause). Sizes are chosen so that the unchanged
+// tree needs a few seconds at most; the budget is CPU time.
+type c16ScaleFam struct {
+	name  string
+	mk    func(n int) string
+	quick []int
+	thor  []int // additional sizes of the thorough tier
+}
+
+func c16ScaleFamilies() []c16ScaleFam {
+	const H = "package main\n\nimport frt\nimport slice\n\n"
+	rep := strings.Repeat
+	lines := func(n int, f func(i int) string) string {
+		var b strings.Builder
+		for i := 0; i < n; i++ {
+			b.WriteString(f(i))
+		}
+		return b.String()
+	}
+	return []c16ScaleFam{
+		{"paren", func(n int) string { return H + "let f (a:int) =\n  " + rep("(", n) + "a" + rep(")", n) + "\n" }, []int{1000, 10000, 100000}, []int{40000}},
+		{"parentype", func(n int) string { return H + "let f (a:" + rep("(", n) + "int" + rep(")", n) + ") =\n  1\n" }, []int{1000, 10000, 100000}, []int{40000}},
+		{"slicetype", func(n int) string { return H + "let f (a:" + rep("[]", n) + "int) =\n  1\n" }, []int{1000, 10000, 1000000}, []int{100000}},
+		{"slice-nest", func(n int) string { return H + "let f (a:int) =\n  " + rep("[", n) + "a" + rep("]", n) + "\n" }, []int{100, 500}, []int{1500}},
+		{"binop-paren", func(n int) string { return H + "let f (a:int) =\n  a" + rep(" + (a", n) + rep(")", n) + "\n" }, []int{1000, 10000}, []int{40000}},
+		{"app-nest", func(n int) string {
+			return H + "let g (a:int) =\n  a\n\nlet f (a:int) =\n  " + rep("g (", n) + "a" + rep(")", n) + "\n"
+		}, []int{1000, 10000}, []int{40000}},
+		{"tuple-nest", func(n int) string { return H + "let f (a:int) =\n  " + rep("(1, ", n) + "a" + rep(")", n) + "\n" }, []int{300, 2000}, []int{10000}},
+		{"inline-if", func(n int) string {
+			return H + "let f (a:bool) =\n  " + rep("if a then ", n) + "1" + rep(" else 2", n) + "\n"
+		}, []int{100, 1000}, []int{5000}},
+		{"lambda-nest", func(n int) string { return H + "let f (a:int) =\n  " + rep("fun (x:int) -> ", n) + "a\n" }, []int{50, 300}, []int{1000}},
+		{"not-chain", func(n int) string { return H + "let f (a:bool) =\n  " + rep("not ", n) + "a\n" }, []int{1000, 10000}, []int{40000}},
+		{"functype", func(n int) string { return H + "let f (a:" + rep("int->", n) + "int) =\n  1\n" }, []int{1000, 10000}, []int{40000}},
+		{"tupletype", func(n int) string { return H + "let f (a:" + rep("int*", n) + "int) =\n  1\n" }, []int{1000, 10000, 100000}, nil},
+		{"generic-args", func(n int) string { return H + "let f (a:int) =\n  slice.New<" + rep("[]", n) + "int> ()\n" }, []int{1000, 10000}, []int{100000}},
+		{"chain-plus", func(n int) string { return H + "let f (a:int) =\n  a" + rep(" + a", n) + "\n" }, []int{1000, 10000}, []int{40000}},
+		{"chain-and", func(n int) string { return H + "let f (a:bool) =\n  a" + rep(" && a", n) + "\n" }, []int{1000, 10000}, []int{40000}},
+		{"chain-pipe", func(n int) string { return H + "let g (a:int) =\n  a\n\nlet f (a:int) =\n  a" + rep(" |> g", n) + "\n" }, []int{30, 1000, 100000}, nil},
+		{"app-args", func(n int) string { return H + "let f (a:int) =\n  frt.Println" + rep(" a", n) + "\n" }, []int{100, 3000}, []int{30000}},
+		{"stmts", func(n int) string { return H + "let f (a:int) =\n" + rep("  frt.Println \"x\"\n", n) + "  a\n" }, []int{1000, 10000}, []int{100000}},
+		{"lets", func(n int) string {
+			return H + "let f (a:int) =\n" + lines(n, func(i int) string { return fmt.Sprintf("  let v%d = a\n", i) }) + "  a\n"
+		}, []int{1000, 10000}, []int{100000}},
+		{"defs", func(n int) string {
+			return H + lines(n, func(i int) string { return fmt.Sprintf("let f%d (a:int) =\n  a\n\n", i) })
+		}, []int{1000, 10000}, []int{100000}},
+		{"slice-elems", func(n int) string { return H + "let f (a:int) =\n  [a" + rep("; a", n) + "]\n" }, []int{1000, 10000, 100000}, nil},
+		{"union-cases", func(n int) string {
+			return H + "type U =\n" + lines(n, func(i int) string { return fmt.Sprintf("| C%d of int\n", i) }) + "\nlet f (u:U) =\n  match u with\n" + lines(n, func(i int) string { return fmt.Sprintf("  | C%d x -> x\n", i) })
+		}, []int{100, 500}, []int{2000}},
+		{"record-fields", func(n int) string {
+			return H + "type R = {F0: int" + lines(n, func(i int) string { return fmt.Sprintf("; F%d: int", i+1) }) + "}\n\nlet f (r:R) =\n  r.F0\n"
+		}, []int{1000, 10000}, []int{40000}},
+		{"elif-chain", func(n int) string {
+			return H + "let f (a:int) =\n  if a = 0 then\n    0\n" + lines(n, func(i int) string { return fmt.Sprintf("  elif a = %d then\n    %d\n", i+1, i+1) }) + "  else\n    1\n"
+		}, []int{10, 1000}, []int{100000}},
+		{"nested-match", func(n int) string {
+			return H + "type U =\n| A of U\n| B\n\nlet f (u:U) =\n" + lines(n, func(i int) string {
+				in := rep(" ", 2+2*i)
+				return in + "match u with\n" + in + "| B -> 0\n" + in + "| A u ->\n"
+			}) + rep(" ", 2+2*n) + "1\n"
+		}, []int{30, 300}, []int{1000}},
+		{"long-string", func(n int) string { return H + "let f (a:int) =\n  \"" + rep("x", n) + "\"\n" }, []int{1000, 1000000}, nil},
+		{"long-identifier", func(n int) string { return H + "let f (a:int) =\n  " + rep("x", n) + "\n" }, []int{1000, 1000000}, nil},
+		{"long-comment", func(n int) string { return H + "/*" + rep("x", n) + "*/\nlet f (a:int) =\n  a\n" }, []int{1000, 1000000}, nil},
+		{"line-comments", func(n int) string { return H + rep("// c\n", n) + "let f (a:int) =\n  a\n" }, []int{1000, 100000}, nil},
+		{"blank-lines", func(n int) string { return H + rep("\n", n) + "let f (a:int) =\n  a\n" }, []int{1000, 1000000}, nil},
+		{"trailing-spaces", func(n int) string { return H + "let f (a:int) =\n  a" + rep(" ", n) + "\n" }, []int{1000, 1000000}, nil},
+		{"sinterp-holes", func(n int) string { return H + "let f (a:int) =\n  $\"" + rep("{a}", n) + "\"\n" }, []int{1000, 100000}, nil},
+	}
+}
+
+func c16ScaleRuns(tier string) []*c16Exec {
+	var out []*c16Exec
+	for _, f := range c16ScaleFamilies() {
+		sizes := append([]int{}, f.quick...)
+		if tier == "thorough" {
+			sizes = append(sizes, f.thor...)
+		}
+		for _, n := range sizes {
+			out = append(out, &c16Exec{id: fmt.Sprintf("scale:%s@%d", f.name, n), class: "size-scaled", files: map[string]string{"x.fo": f.mk(n)}, args: []string{"x.fo"},
+				heavy: true, scale: true, desc: fmt.Sprintf("size-scaled input: %s x %d", f.name, n)})
+		}
+	}
+	return out
+}
+
 // c16FaultRuns enumerates syscall faults on the output path for a few programs.
 func c16FaultRuns(env *scratch.Env, fc string, tier string) []*c16Exec {
 	var out []*c16Exec
@@ -516,7 +613,7 @@ func runC16(r *core.Run, tier string) {
 		return
 	}
 	const cpuBudget = 10
-	r.Rule("a case is one execution of the rebuilt fc binary in a clean directory under RLIMIT_CPU=10 s (normal cost ~10 ms): mutants of ~35 seed programs (truncation at every byte offset, deletion/duplication/swap/replacement of every token, indentation damage per line, dangling comment/string/bracket/keyword tails), random byte strings, a corpus of ill-typed and self-referential definitions, argument-list faults, and strace-injected errors on each openat/write/close of the output path; judged by: terminates within the CPU budget, no Go runtime fatal error or signal, exit 0 => every requested gen file present (and byte-equal to the fault-free output in fault runs), exit != 0 => diagnostic printed and nothing written for the offending file; non-trivial = the input differs from every seed (all mutants) ; distinct by class + content hash")
+	r.Rule("a case is one execution of the rebuilt fc binary in a clean directory under RLIMIT_CPU=10 s (normal cost ~10 ms): mutants of ~35 seed programs (truncation at every byte offset, deletion/duplication/swap/replacement of every token, indentation damage per line, dangling comment/string/bracket/keyword tails), random byte strings, a corpus of ill-typed and self-referential definitions, argument-list faults, strace-injected errors on each openat/write/close of the output path, and size-scaled inputs (one construct nested or repeated 10^2..10^6 times: brackets, slice / function / tuple types, operator chains, statements, definitions, cases, fields, literals, comments; own CPU budget of 300 s, exceeding it is inconclusive); judged by: terminates within the CPU budget, no Go runtime fatal error or signal, exit 0 => every requested gen file present (and byte-equal to the fault-free output in fault runs), exit != 0 => diagnostic printed and nothing written for the offending file; non-trivial = the input differs from every seed (all mutants) ; distinct by class + content hash")
 	r.Assume("termination is decided as CPU time <= 10 s on inputs <= 64 KiB (three orders of magnitude above normal cost); the wall-clock watchdog only yields 'inconclusive'", "after an injected failure of the output write itself a partial gen file may remain; exit status and diagnostic are still required", "strace -P restricts injection to syscalls on the output path")
 	rng := core.NewRand(r.SeedV, "c16")
 	work := c16Workload(env, tier, rng)
@@ -527,6 +624,8 @@ func runC16(r *core.Run, tier string) {
 		f.baseline = o.gen
 	}
 	all := append(work, faults...)
+	all = append(all, c16ScaleRuns(tier)...)
+	const scaleBudget = 300 // CPU seconds; the unchanged tree needs at most a few seconds per size-scaled input (quick tier)
 	obs := make([]*c16Obs, len(all))
 	base := env.Dir("c16")
 	var hangMu sync.Mutex
@@ -545,9 +644,12 @@ func runC16(r *core.Run, tier string) {
 			budget = 3 // many hangs already seen: keep the run bounded (still ~300x the normal cost)
 		}
 		hangMu.Unlock()
+		if e.scale {
+			budget = scaleBudget
+		}
 		obs[i] = c16Run(fc, env.PkgAll(), d, e, budget)
 		replay := false
-		if obs[i].cpuOut {
+		if obs[i].cpuOut && !e.scale {
 			hangMu.Lock()
 			hangs++
 			replay = hangs <= 2
@@ -599,6 +701,10 @@ func runC16(r *core.Run, tier string) {
 		files := map[string]string{"observed.txt": fmt.Sprintf("class=%s\nargs=%v\ninject=%s\nexit=%d signal=%s cpu_ms=%d\n--- stdout\n%s\n--- stderr\n%s\n--- gen files: %v\n--- strace\n%s\n",
 			e.class, e.args, e.inject, o.exit, o.signal, o.cpuMs, tail(o.stdout, 2000), tail(o.stderr, 3000), keysOf(o.gen), tail(o.straceLog, 3000))}
 		for n, c := range e.files {
+			if e.scale && len(c) > 1<<16 {
+				files["input/"+n+".head"] = c[:2048] + "\n...\n[" + fmt.Sprint(len(c)) + " bytes; regenerate with: vrun check C16 (case " + e.id + ")]\n..." + c[len(c)-1024:]
+				continue
+			}
 			files["input/"+n] = c
 		}
 		r.Violate(class+":"+e.id, fmt.Sprintf("[%s] %s: %s", e.desc, class, what), files)
